@@ -14,6 +14,7 @@ from pydiverse.common import (
     Dtype,
     Float,
     Int,
+    NullType,
     String,
 )
 from pydiverse.transform._internal.backend.table_impl import (
@@ -136,6 +137,19 @@ def compile_col_expr(
     elif isinstance(expr, ColFn):
         impl = PolarsImpl.get_impl(expr.op, tuple(arg.dtype() for arg in expr.args))
         args: list[pl.Expr] = [compile_col_expr(arg, name_in_df, op_kwargs=op_kwargs) for arg in expr.args]
+
+        if any(types.without_const(arg.dtype()) == NullType() for arg in expr.args):
+            # Polars gives an untyped `None` the type `null`, which many of its
+            # operations reject. It gets the type of the parameter it is passed to.
+            param_types = expr.op.trie.best_match([arg.dtype() for arg in expr.args])[0]
+            args = [
+                compiled.cast(types.without_const(param).to_polars())
+                if types.without_const(arg.dtype()) == NullType()
+                and not types.is_const(param)
+                and types.without_const(param) != NullType()
+                else compiled
+                for arg, compiled, param in zip(expr.args, args, param_types, strict=True)
+            ]
 
         if (partition_by := expr.context_kwargs.get("partition_by")) is not None:
             partition_by = [compile_col_expr(pb, name_in_df, op_kwargs=op_kwargs) for pb in partition_by]
